@@ -110,7 +110,8 @@ def build_case(rng, cid, kind):
         main.shifter()
     # an assembler include and a clean C include before the defect, sometimes
     if rng.random() < 0.4:
-        files.append(('lib.inc', '; assembler text\n lda #1 ; "quoted"\n'))
+        # the assembler text reaches the compiler as it is: multi-byte characters in it must not shift positions
+        files.append(('lib.inc', rng.choice(['; assembler text\n lda #1 ; "quoted"\n', '; d\u00e9j\u00e0 vu \u00e9\u00e9\u00e9\u00e9 \u20ac\u20ac\n lda #1 ; "quoted"\n'])))
         main.phys('#include "lib.inc"')
     if rng.random() < 0.4:
         # half of the time the included file lacks its final newline (the includer's next line must
